@@ -15,6 +15,7 @@
 #include "vfh.h"
 #include <set>
 using namespace vfh;
+static int item_live = 0, item_made = 0;
 static int booms = 0;   // live exception objects: a captured exception that is overwritten by a second thrower's, or never released, stays alive
 struct Boom { int id; explicit Boom(int i) : id(i) { ++booms; } Boom(const Boom& o) : id(o.id) { ++booms; } ~Boom() { --booms; } };
 static int mask = 0, inv = 0, live = 0, started_after = 0, caught_at = -1; static std::set<int> thrown; static bool returned = false; static int objs = 0;
@@ -51,6 +52,22 @@ static void scenario() {
                 tbb::make_filter<void, int>(tbb::filter_mode::serial_in_order, [&](tbb::flow_control& fc) -> int { if (produced == 3) { fc.stop(); return 0; } body(); return produced++; }) &
                 tbb::make_filter<int, int>(tbb::filter_mode::parallel, [](int x) { body(); return x; }) &
                 tbb::make_filter<int, void>(tbb::filter_mode::serial_out_of_order, [](int) { body(); })); }); }
+        else if (streq(k, "pipeline_obj")) {   // items that travel in library-allocated tokens (not trivially copyable): after an exception every item the filters produced is destroyed exactly once
+            struct Item { int v; Item(int x = 0) : v(x) { ++item_live; ++item_made; } Item(const Item& o) : v(o.v) { ++item_live; ++item_made; } Item(Item&& o) noexcept : v(o.v) { ++item_live; ++item_made; } ~Item() { if (--item_live < 0) vf_fail("an item of the pipeline was destroyed twice"); } Item& operator=(const Item&) = default; };
+            int produced = 0, nitems = (int)vf_param_int("items", 4), ntok = (int)vf_param_int("tokens", 3); item_live = item_made = 0;
+            guarded("parallel_pipeline", [&] { tbb::parallel_pipeline(ntok,
+                tbb::make_filter<void, Item>(tbb::filter_mode::serial_in_order, [&](tbb::flow_control& fc) -> Item { if (produced == nitems) { fc.stop(); return Item(-1); } body(); return Item(produced++); }) &
+                tbb::make_filter<Item, Item>(tbb::filter_mode::parallel, [](Item x) { body(); return x; }) &
+                tbb::make_filter<Item, void>(tbb::filter_mode::serial_in_order, [](Item) { body(); })); });
+            if (item_live != 0) vf_fail("%d of the %d item objects that travelled through the pipeline were never destroyed after the call %s", item_live, item_made, thrown.empty() ? "returned" : "rethrew the exception"); }
+        else if (streq(k, "foreach_input")) {   // parallel_for_each over INPUT iterators: the items are copied into blocks by the library; the copythrow-th copy of an item throws
+            static int copies, copythrow; copies = 0; copythrow = (int)vf_param_int("copythrow", 1);
+            struct It { int v; It(int x = 0) : v(x) { ++item_live; } It(const It& o) : v(o.v) { if (++copies == copythrow) { thrown.insert(100 + copies); throw Boom(100 + copies); } ++item_live; } It(It&& o) : v(o.v) { ++item_live; } ~It() { --item_live; } It& operator=(const It&) = default; };
+            struct InIt { using iterator_category = std::input_iterator_tag; using value_type = It; using difference_type = std::ptrdiff_t; using pointer = const It*; using reference = const It&; int pos; mutable It cur; InIt(int p) : pos(p), cur(p) {}
+                reference operator*() const { cur.v = pos; return cur; } InIt& operator++() { ++pos; return *this; } InIt operator++(int) { InIt t(pos); ++pos; return t; } bool operator==(const InIt& o) const { return pos == o.pos; } bool operator!=(const InIt& o) const { return pos != o.pos; } };
+            item_live = 0; int n = (int)vf_param_int("items", 5);
+            { guarded("parallel_for_each(input iterators)", [&] { tbb::parallel_for_each(InIt(0), InIt(n), [](const It&) { body(); }); }); }
+            if (item_live != 2 * 0 && item_live != 0) vf_fail("%d item copies made by parallel_for_each were never destroyed", item_live); }
         else if (streq(k, "graph")) { using namespace tbb::flow; graph g; function_node<int, int> f(g, unlimited, [](int x) { body(); return x; }); function_node<int, continue_msg> s(g, serial, [](int) { body(); return continue_msg(); }); make_edge(f, s);
             guarded("graph::wait_for_all", [&] { f.try_put(1); f.try_put(2); g.wait_for_all(); });
             if (!thrown.empty() && !g.is_cancelled()) vf_fail("graph not cancelled after an exception"); g.reset(); mask = 0; thrown.clear(); int before = inv; guarded("graph (after reset)", [&] { f.try_put(3); g.wait_for_all(); }); if (inv != before + 2) vf_fail("graph not reusable after reset"); }
